@@ -13,6 +13,7 @@ package main
 // dependence) and reports the return or the lookup that lost it.
 
 import (
+	"fmt"
 	"go/token"
 	"go/types"
 	"sort"
@@ -447,4 +448,51 @@ func (q *depQuery) coOperands(obj ssa.Value, rec func(ssa.Value) bool, depth int
 		}
 	}
 	return false
+}
+
+// L20 type-info references are resolved for every kind of inlined extra data: the encoder may write the type
+// information of any inlined extra data entry as a reference into the slab's shared type-info list, so in the
+// function that builds the reference-resolving decoder (decodeTypeInfoRefIfNeeded) every callee that is handed a
+// TypeInfoDecoder receives that resolving decoder, not the plain one.
+func ruleL20(p *Prog, r *Report) {
+	const R = "L20"
+	n := 0
+	for _, f := range p.TopFuncs() {
+		if p.IsTestFile(f.Pos()) {
+			continue
+		}
+		var resolver ssa.Value
+		eachInstr(f, func(in ssa.Instruction) {
+			if c, ok := in.(*ssa.Call); ok && c.Call.StaticCallee() != nil && c.Call.StaticCallee().Name() == "decodeTypeInfoRefIfNeeded" {
+				resolver = c
+			}
+		})
+		if resolver == nil {
+			continue
+		}
+		ord := 0
+		eachInstr(f, func(in ssa.Instruction) {
+			c, ok := in.(*ssa.Call)
+			if !ok || ssa.Value(c) == resolver {
+				return
+			}
+			g := c.Call.StaticCallee()
+			if g == nil || g.Pkg != p.RootSSA {
+				return
+			}
+			for _, a := range c.Call.Args {
+				if typeName(a.Type()) != "TypeInfoDecoder" {
+					continue
+				}
+				if !resolver.(*ssa.Call).Block().Dominates(c.Block()) {
+					continue
+				}
+				n++
+				ord++
+				cons := fmt.Sprintf("typeinfo-ref-resolved:%s:%s", p.Name(f), g.Name())
+				r.Decide(canon(a) == resolver, R, cons, p.InstrPos(in), "the callee receives the decoder that resolves references into the shared type-info list", "the callee receives the plain type-info decoder: a type information that the encoder wrote as a reference into the slab's shared list cannot be decoded (or decodes to another type) for this kind of extra data")
+			}
+		})
+	}
+	r.Floor(R, "extra data decoders handed a type-info decoder", 3, n)
 }
